@@ -23,12 +23,18 @@ import (
 // pool, same per-call fault plan).
 
 const probePath = "/zprobe.jet"
+const leavePath = "/zleave.jet"
 
 var reTwin = regexp.MustCompile(`<twin:([^=|>]*)=([^=|>]*)\|([^=|>]*)=([^=|>]*)>`)
 
 // stateProbeSource prints everything a fresh runtime must not have.
 func stateProbeSource(w *gen.World) string {
 	var b strings.Builder
+	// the probe imports the first library only: blocks of other libraries (and of the mains) are unknown
+	// to it - unless somebody wrote them into that library's block table
+	if _, ok := w.Files["/lib/lib0.jet"]; ok {
+		b.WriteString(`{{import "/lib/lib0.jet"}}`)
+	}
 	b.WriteString("<ctx:{{.}}>")
 	b.WriteString("<content:{{yield content}}>")
 	b.WriteString("<set:")
@@ -37,6 +43,9 @@ func stateProbeSource(w *gen.World) string {
 	}
 	b.WriteString("{{isset(e)}},{{isset(p0)}},{{isset(p1)}}>")
 	b.WriteString("<vars:{{s}}{{n}}{{item.Name}}>")
+	// a range over a three-entry map that is left after its first element (the helper returns from inside
+	// the loop), then a range over an empty map: with a recycled ranger the second must still be empty
+	b.WriteString(`<maps:{{exec("` + leavePath + `")}}{{range root.NoMap}}LEFTOVER{{else}}empty{{end}}|{{range names}}{{.}}{{end}}>`)
 	// two types of one shape: a field name resolves alike on both, whenever it is evaluated
 	b.WriteString("<twin:{{root.Col.Name}}={{root.Col2.Name}}|{{root.Col.Only}}={{root.Col2.Only}}>")
 	b.WriteString("<blocks:")
@@ -82,6 +91,7 @@ func RunC10(env *sim.Env) {
 	t := env.Tape
 	opts := gen.SwarmOptions(t)
 	world := gen.GenWorld(t, opts)
+	world.Files[leavePath] = `{{range root.Three}}{{return "left"}}{{end}}{{range i, v := names}}{{return v}}{{end}}`
 	world.Files[probePath] = stateProbeSource(world)
 	world.Order = append(world.Order, probePath)
 	data := gen.GenData(t, 1)
